@@ -73,6 +73,11 @@ ASSUMPTIONS = [
     "bytes payloads are opaque tokens; float fields are compared as IEEE bit patterns (signalling NaNs excluded)",
     "sparse_initializer, training_info, TensorProto.segment, opaque/map types, sparse attributes are outside the supported set",
     "quantization annotations are treated as a map keyed by tensor name (their order is not preserved by serde.py)",
+    "WFproto (theorem domain) is narrower than the generator's valid stream: models below IR version 10 that carry "
+    "function value info in the experimental 'domain::name/value' encoding, and graphs whose output is a (non-input) "
+    "initializer, are covered by correspondence + oracle only (histogram keys wf[valid]=...)",
+    "a node input that resolves to a different Value object with the same name (scope shadowing order) is not "
+    "observable through to_proto; object identity after deserialization belongs to C03/C17",
 ]
 
 KINDS = {
